@@ -53,6 +53,7 @@ type SpecEnv struct {
 	old     *State
 	bound   map[string]SVal
 	lets    map[string]SVal
+	macros  map[string]*Clause
 	block   *ssa.BasicBlock // context for local names (loop invariants)
 	callee  bool
 	inOld   bool
@@ -101,6 +102,13 @@ func (env *SpecEnv) bindResults(fn *ssa.Function, res Val) {
 // lets: "let x = e" clauses; those mentioning results are only evaluated at exit.
 func (env *SpecEnv) evalLets(c *Contract, atExit bool) {
 	for _, cl := range c.byKind("let") {
+		if len(cl.Params) > 0 {
+			if env.macros == nil {
+				env.macros = map[string]*Clause{}
+			}
+			env.macros[cl.Name] = cl
+			continue
+		}
 		func() {
 			defer func() {
 				if r := recover(); r != nil {
@@ -275,7 +283,9 @@ func (env *SpecEnv) object(obj types.Object) SVal {
 		if _, isArr := t.Underlying().(*types.Array); isArr {
 			return SVal{T: types.NewPointer(t), C: []Term{pl.Addr}, Pl: pl}
 		}
-		return fromVal(vc.load(pl, env.state()))
+		lv := vc.load(pl, env.state())
+		env.fr.applyGlobalInv(pl, lv, env.state(), "true")
+		return fromVal(lv)
 	case *types.TypeName:
 		specFail("type name %s used as value", o.Name())
 	}
@@ -950,6 +960,9 @@ func (env *SpecEnv) callExpr(x *ast.CallExpr) SVal {
 	case "inrange":
 		// inrange(x, lo, hi): lo <= x < hi
 		return sBool(and(sx("<=", arg(1).t(), arg(0).t()), sx("<", arg(0).t(), arg(2).t())))
+	case "isArrayStart":
+		// for sweeps over On{Array,Object}{Start,Finished}
+		return sBool(map[bool]Term{true: "true", false: "false"}[strings.Contains(env.fn.Name(), "Array")])
 	case "typeIs":
 		// typeIs(ifaceValue, T)
 		v := arg(0)
@@ -958,6 +971,30 @@ func (env *SpecEnv) callExpr(x *ast.CallExpr) SVal {
 			specFail("typeIs: unknown type")
 		}
 		return sBool(eq(v.C[0], itoa(int64(vc.eng.typeID(t)))))
+	}
+	if mc, ok := env.macros[name]; ok {
+		if len(x.Args) != len(mc.Params) {
+			specFail("macro %s expects %d arguments", name, len(mc.Params))
+		}
+		saved := map[string]SVal{}
+		had := map[string]bool{}
+		var vals []SVal
+		for i := range x.Args {
+			vals = append(vals, arg(i))
+		}
+		for i, pn := range mc.Params {
+			saved[pn], had[pn] = env.bound[pn]
+			env.bound[pn] = vals[i]
+		}
+		r := env.eval(mc.Expr)
+		for _, pn := range mc.Params {
+			if had[pn] {
+				env.bound[pn] = saved[pn]
+			} else {
+				delete(env.bound, pn)
+			}
+		}
+		return r
 	}
 	// spec functions from the prelude
 	if sf, ok := vc.eng.specFuncs[name]; ok {
